@@ -253,9 +253,9 @@ var floatSpellings = []string{"0.0", "1.0", "1.5", "0.5", "0.1", "2.25", "3.14",
 var badFloatSpellings = []string{"1e999", "1.8e308"}
 var strSpellings = []string{`""`, `"a"`, `"ab"`, `"hello world"`, `"x y"`, `"#not a comment"`, `"a;b"`, `"(p)"`, `"q\"uote"`, `"back\\slash"`, `"tab\there"`, `"nl\nx"`, `"\x41\x00"`, `"é"`, `"\U0001F600"`, `"\101\060"`, `"é世界"`, `"  lead"`, `"0"`, `"1.5"`, `"true"`, `"{}"`, `"\a\b\f\r\v"`, `"\xff"`}
 var badStrSpellings = []string{`"\q"`, `"\x4"`, `"\u12"`, `"\400"`, `"\'"`}
-var varNames = []string{"a", "b", "c", "x", "y", "z", "tmp_1", "Foo", "_u", "x2"}
-var fieldNames = []string{"f", "g", "h", "port", "host", "name", "x", "a", "max_conn", "Flag"}
-var typeNames = []string{"srv", "db", "t", "u", "conf"}
+var varNames = []string{"a", "b", "c", "x", "y", "z", "tmp_1", "Foo", "_u", "x2", "t"}
+var fieldNames = []string{"f", "g", "h", "port", "host", "name", "x", "a", "max_conn", "Flag", "t", "u", "db"}
+var typeNames = []string{"srv", "db", "t", "u", "conf", "f", "x"}
 var blockNames = []string{`"n1"`, `"n2"`, `"a b"`, `"é"`, `""`, `"x.y"`, `"q\"q"`}
 
 func (g *Gen) lit(kind string) Lit {
@@ -605,7 +605,7 @@ func (g *Gen) stmt(sc *scope, blockDepth int) Stmt {
 		return DefStmt{typ, name, body}
 	case k < 96:
 		typ := g.pick(typeNames)
-		if len(g.Blocks) > 0 && g.chance(2) == false {
+		if len(g.Blocks) > 0 && !g.chance(6) {
 			typ = g.pick(g.Blocks)
 		}
 		sel := g.pick([]string{"", "", "1", "first", "last", "all"})
@@ -636,4 +636,70 @@ func Render(ss []Stmt, r *rand.Rand, fancy bool) string {
 	l := &Layout{r: r, Fancy: fancy}
 	semi := func() bool { return r.Intn(4) == 0 }
 	return l.Join(progToks(ss, semi))
+}
+
+
+// WideProgram: programs that push indices beyond the one-byte varint range and onto
+// particular byte values: hundreds of variables (slots 28, 240, 241, 248, 249, 255, 256 …),
+// hundreds of distinct field names and block types (constant indices ≥ 241), binds of
+// late-defined types, scopes that end right after reading a chosen slot.
+func WideProgram(r *rand.Rand) string {
+	var b strings.Builder
+	nv := []int{30, 60, 245, 250, 262, 300}[r.Intn(6)]
+	hot := []int{0, 1, 27, 28, 29, 127, 128, 239, 240, 241, 242, 247, 248, 249, 250, 254, 255, 256, 257, 299}
+	pick := func() int {
+		k := hot[r.Intn(len(hot))]
+		if k >= nv || r.Intn(4) == 0 {
+			k = r.Intn(nv)
+		}
+		return k
+	}
+	switch r.Intn(4) {
+	case 0: // toplevel variables, reads and assignments of chosen slots
+		for i := 0; i < nv; i++ {
+			fmt.Fprintf(&b, "var v%d = %d\n", i, i*3)
+		}
+		for j := 0; j < 6; j++ {
+			k, m := pick(), pick()
+			switch r.Intn(4) {
+			case 0:
+				fmt.Fprintf(&b, "print v%d + v%d\n", k, m)
+			case 1:
+				fmt.Fprintf(&b, "eval v%d = v%d * 2\nprint v%d\n", k, m, k)
+			case 2:
+				fmt.Fprintf(&b, "def blk%d { f = v%d; var t = v%d }\n", j, k, m)
+			default:
+				fmt.Fprintf(&b, "def q%d { var w = 1; g = v%d; var last = v%d }\nprint v%d\n", j, k, m, k)
+			}
+		}
+		fmt.Fprintf(&b, "var last = v%d\n", pick())
+	case 1: // variables inside a block, nested block reading them, scope ends after a read
+		fmt.Fprintf(&b, "def outer \"o\" {\n")
+		for i := 0; i < nv; i++ {
+			fmt.Fprintf(&b, " var v%d = %d\n", i, i)
+		}
+		k := pick()
+		fmt.Fprintf(&b, " x = v%d\n def inner { y = v%d + v%d; var t = v%d }\n var t = v%d\n}\n", k, pick(), pick(), pick(), pick())
+	case 2: // many distinct field names: constant indices beyond 240
+		fmt.Fprintf(&b, "def big {\n")
+		for i := 0; i < nv; i++ {
+			fmt.Fprintf(&b, " fld%d = %d\n", i, i)
+		}
+		fmt.Fprintf(&b, " s = fld%d + fld%d\n fld%d = fld%d - 1\n print fld%d\n}\n", pick(), pick(), pick(), pick(), pick())
+	default: // many block types; bind a late one
+		for i := 0; i < nv; i++ {
+			fmt.Fprintf(&b, "def ty%d \"n%d\" { a = %d }\n", i, i, i)
+		}
+		k := pick()
+		sel := []string{"", ":1", ":first", ":last", ":all"}[r.Intn(5)]
+		tgt := "slice"
+		if sel != ":all" && r.Intn(2) == 0 {
+			tgt = "struct"
+		}
+		fmt.Fprintf(&b, "bind ty%d%s -> %s\n", k, sel, tgt)
+		if r.Intn(2) == 0 {
+			fmt.Fprintf(&b, "bind ty%d -> struct\n", pick())
+		}
+	}
+	return b.String()
 }
